@@ -99,7 +99,7 @@ class MemFamily(Family):
     corr = "corr_mem"
     oracle = "oracle_C12"
     shard = 150
-    n_quick, n_thorough = 1500, 20000
+    n_quick, n_thorough = 1500, 6000
     rule = ("operation sequences of length <= 12 over a universe of 6 intervals (duplicates, equal starts) and "
             "daily UTC patterns (every 1-3 days, anchored or time-of-day, durations up to 2.5 days) with and "
             "without series ids, interleaved with slices in both directions; non-trivial = some slice "
